@@ -19,8 +19,10 @@ import (
 	"github.com/siglens/siglens/pkg/ast/pipesearch"
 	"github.com/siglens/siglens/pkg/config"
 	eswriter "github.com/siglens/siglens/pkg/es/writer"
+	sighooks "github.com/siglens/siglens/pkg/hooks"
 	"github.com/siglens/siglens/pkg/segment/memory/limit"
 	"github.com/siglens/siglens/pkg/segment/query"
+	sutils "github.com/siglens/siglens/pkg/segment/utils"
 	"github.com/siglens/siglens/pkg/segment/writer"
 	serverutils "github.com/siglens/siglens/pkg/server/utils"
 	vtable "github.com/siglens/siglens/pkg/virtualtable"
@@ -40,7 +42,7 @@ type LayoutCfg struct {
 	Aggs    bool   `json:"aggs"`    // agile-tree aggregations enabled
 	Procs   int    `json:"procs"`   // GOMAXPROCS (0 = default)
 	Perm    []int  `json:"perm"`    // ingest order (indices into the event list)
-	Trace   bool  `json:"trace"`   // read from the server's log how each query was served (raw search / pqs)
+	Trace   bool   `json:"trace"`   // read from the server's log how each query was served (raw search / pqs)
 	Windows bool   `json:"windows"` // record, after every written record, what getLastRecord() returns per column
 }
 
@@ -87,11 +89,20 @@ func (h *pathHook) Fire(e *log.Entry) error {
 
 var paths = &pathHook{m: map[uint64][2]int{}}
 
+// what getLastRecord() returned per column right after the record with this id was written
+type WinObs struct {
+	Id   int               `json:"id"`
+	Cols map[string][]byte `json:"cols"`
+}
+
+var idRe = regexp.MustCompile(`"id":(\d+)`)
+
 type WorkerOut struct {
-	Obs      []Obs `json:"obs"`
-	Flushes  int   `json:"flushes"`
-	Rotates  int   `json:"rotates"`
-	Ingested int   `json:"ingested"`
+	Windows  []WinObs `json:"windows,omitempty"`
+	Obs      []Obs    `json:"obs"`
+	Flushes  int      `json:"flushes"`
+	Rotates  int      `json:"rotates"`
+	Ingested int      `json:"ingested"`
 }
 
 func initNode(dir string, cfg LayoutCfg) error {
@@ -273,6 +284,16 @@ func workerMain(dir, scriptPath, outPath string) {
 	}
 	var out WorkerOut
 	zero, zero2 := time.Duration(0), time.Duration(0)
+	if sc.Cfg.Windows {
+		sighooks.GlobalHooks.AfterWritingToSegment = func(rid uint64, segstore interface{}, record []byte, ts uint64, st sutils.SIGNAL_TYPE) error {
+			id := -1
+			if m := idRe.FindSubmatch(record); m != nil {
+				id, _ = strconv.Atoi(string(m[1]))
+			}
+			out.Windows = append(out.Windows, WinObs{Id: id, Cols: writer.VerifC03Windows(segstore)})
+			return nil
+		}
+	}
 	if sc.Cfg.PQS {
 		// the persistent-query path: the index exists and the battery has been asked before any data arrives
 		_ = vtable.AddVirtualTable(&sc.Idx, 0)
